@@ -34,7 +34,8 @@ type SimCallback struct {
 	fail      map[int]bool
 	marker    bool
 	invoked   int
-	sharedErr bool // failing invocations all return one and the same error value
+	sharedErr bool         // failing invocations all return one and the same error value
+	src       *SimCallback // this registration is the same callback value as src (one error source, one invocation counter)
 }
 
 type markerKey struct{ reg int }
@@ -57,8 +58,12 @@ func (e cbEvent) String() string {
 
 func (cb *SimCallback) UpdateProperties(po tabular.PropertyOwner) error {
 	w := cb.w
-	inv := cb.invoked
-	cb.invoked++
+	root := cb
+	if cb.src != nil {
+		root = cb.src
+	}
+	inv := root.invoked
+	root.invoked++
 	ev := cbEvent{reg: cb.id}
 	ev.target, ev.live = w.identify(po)
 	if cb.marker {
@@ -70,9 +75,9 @@ func (cb *SimCallback) UpdateProperties(po tabular.PropertyOwner) error {
 		w.Log.Add("cb " + ev.String())
 	}
 	yield(w.Y, "callback")
-	if cb.fail[inv] {
+	if root.fail[inv] {
 		var e error
-		if cb.sharedErr {
+		if root.sharedErr {
 			// the same error value every time (and the same one for every
 			// registration of the run that is scripted this way)
 			if w.sharedSentinel == nil {
@@ -81,7 +86,7 @@ func (cb *SimCallback) UpdateProperties(po tabular.PropertyOwner) error {
 			e = w.sharedSentinel
 			w.probe("same_error_value_raised_again")
 		} else {
-			e = w.newErr("cb#" + strconv.Itoa(cb.id))
+			e = w.newErr("cb#" + strconv.Itoa(root.id))
 		}
 		w.expect(e, w.errSink)
 		w.Faults["cb_error_"+timeNames[cb.time]]++
@@ -259,6 +264,13 @@ func (w *World) DoCB(st *Step) (bool, *Violation) {
 		cb := &SimCallback{id: len(w.regs) + 1, w: w, owner: pick(6, st.A), time: pick(4, st.C), target: pick(3, st.D), marker: st.E&1 != 0, sharedErr: st.E&2 != 0, fail: map[int]bool{}}
 		for _, n := range st.Plan {
 			cb.fail[n] = true
+		}
+		if st.E&4 != 0 && len(w.regs) > 0 {
+			cb.src = w.regs[len(w.regs)-1]
+			if cb.src.src != nil {
+				cb.src = cb.src.src
+			}
+			w.probe("same_callback_registered_at_two_levels")
 		}
 		var owner tabular.PropertyOwner
 		var regTarget *[]*SimCallback
